@@ -23,6 +23,7 @@ mod c03;
 mod c05;
 mod c06;
 mod c07;
+mod c08;
 mod c10;
 mod c13;
 mod c14;
@@ -80,6 +81,7 @@ fn run_op(op: &str, seed: u64, n: u64, out: &mut out::Out) {
         "c05" => c05::run(seed, n, out),
         "c06" => c06::run(seed, n, out),
         "c07" => c07::run(seed, n, out),
+        "c08" => c08::run(seed, n, out),
         "c10" => c10::run(seed, n, out),
         "c13" => c13::run(seed, n, out),
         "c14" => c14::run(seed, n, out),
